@@ -95,6 +95,29 @@ claim("C36", "model_checking",
       "Differential: for every combination of permission facts (one shared symbolic fact table behind both port sets) the per-send and the batched permission paths return the same reason and error-ness for group and well-formed person channels; disbanded channels never yield success or a membership reason; system senders skip only the non-terminal checks. Known finding C36-F1 (malformed person id with NormalizePersonChannel=false).",
       "Channel ids/uids are constants; permission cache off. " + TB)
 
+
+claim("C03", "other",
+      "Slice: decides through the real quorumLog.Commit (fake store/dispatchers backed by one fact table, synchronous completions) that a sealed range is LEO+1..LEO+n chained to the frontier, a success is backed by the local log plus a write quorum and advances the frontier, exact retries return the same receipt without I/O (retained, pending, evicted via LookupCommands, after restart), other content under a known id is ErrLogConflict, a pending command back-pressures others, and successive commands get adjacent disjoint ranges. Known finding C03-F1 (retryPending ignores a Conflict outcome).",
+      "Histories of up to four Commits on one channel; MessageDB's exact-base store contract mirrored in the fake; SHA-256 abstract. " + TB)
+claim("C04", "model_checking",
+      "Decides that compareAuthorityID is the strict lexicographic order, that Install refuses older and conflicting authorities and closes admission before anything can fail on a newer one, that Commit is refused (no dispatch, no write) under a stale Expected, an active fence or before readiness, that appends admitted under a deposed authority never yield a receipt after a newer Install, and the reactor's append admission order.",
+      "Sequential orders only (Install and Commit hold the channel mutex); hedged/deferred dispatcher variants not used; ValidateMeta clause is asserted by C06's ApplyMeta entry. " + TB)
+claim("C07", "other",
+      "Slice (layout lemmas the sequential-log behaviour rests on): order-(anti)isomorphism of the ordered integer encodings, prefix-freedom and least-upper-bound of PrefixEnd, row/index key decoders inverting their encoders, channel and table isolation of key spans over 19 key kinds, header/payload/index value round trips, values bound to their keys by the checksum, and that an appended record materialises as a valid row (known finding C07-F1 for empty payloads, repaired).",
+      "Append/truncate/trim/reopen logic, index maintenance and recoverLEO (Pebble-backed) are not claimed. CRC32C modelled as its exact GF(2)-affine map for this check. " + TB)
+claim("C08", "other",
+      "Slice: idempotency filter soundness as one inductive step from an arbitrary filter state (add makes the key present, no present key disappears, saturation and overflow layer), exact in-batch duplicate detection, and the pre-storage decisions of validateAppendRow (accepted without a point read only if the filter said absent; possible hits always go to storage; strict mode always reads the id index).",
+      "Filter layers of 1-2 words (4 thorough) for the step lemmas (64/128-word layers defeat the solver), maphash uninterpreted; outcomes of durable lookups, rebuild after reopen and reclamation are not claimed. " + TB)
+claim("C13", "other",
+      "Slice: (a) every registered command decoder and the dispatcher on arbitrary bytes never panic and return a command or an error; (b) commands touching a hash slot the slot does not own are refused before apply, state untouched; (c) through the REAL slot state machine and meta DB on the in-memory engine: a log of 2 commands (3 for the subscriber commands, 3 in thorough) applied as one batch or split at any point yields identical results and byte-identical stores, and a restart between commands (new state machine on the same store, resume after the durable applied index) converges to the same store.",
+      "Six command kinds over a tiny id space with small integers; snapshot equivalence, longer logs and the JSON bodies of migration commands are not claimed; the engine shim has no durability. " + TB)
+claim("C18", "other",
+      "Slice: ApplyBatch replay guard (an entry at or below the applied index is answered already_applied without reaching mutation application; applied index strictly increases; saved = final = published exactly once and only after initialisation; failed Save publishes nothing), replay after restart changes nothing, and validateChanged (changed => revision +1 and valid state, rejected => state restored).",
+      "Six command classes (node upsert family); the other mutation handlers, batch-partition equivalence over general logs, Restore and the checksum value (encoding/json) are not claimed. " + TB)
+claim("C40", "other",
+      "Slice: the message-event reducer on arbitrary lane rows: applied exactly when the lane is not terminal and the event id is not a replay; applied => sequence = cursor+1; terminal events finalise the lane and nothing later changes it; replayed ids report their recorded sequence; 3-event (4 thorough) histories keep cursor = number of applied events.",
+      "encoding/json on concrete payload literals is executed exactly; the Pebble glue of AppendMessageEvent and the leader stream cache / fail-closed finish clause are not claimed. " + TB)
+
 def main():
     props = [json.loads(l) for l in open(os.path.join(ROOT, 'properties.jsonl'))]
     checks, na = [], []
